@@ -1332,7 +1332,7 @@ mod expression_parser {
                 body: Box::new(body),
               });
             } else {
-              let tuple_elements = parameters_or_tuple_elements_cover
+              let mut tuple_elements = parameters_or_tuple_elements_cover
                 .into_iter()
                 .map(|name| {
                   expr::E::LocalId(
@@ -1345,6 +1345,13 @@ mod expression_parser {
                   )
                 })
                 .collect_vec();
+              if let Some(node) = tuple_elements.get(MAX_STRUCT_SIZE) {
+                parser.error_set.report_invalid_syntax_error(
+                  node.loc(),
+                  format!("Maximum allowed tuple size is {MAX_STRUCT_SIZE}"),
+                );
+              }
+              tuple_elements.truncate(MAX_STRUCT_SIZE);
               let loc = peeked_loc.union(&right_parenthesis_loc);
               if tuple_elements.len() == 1 {
                 // `(a, )`: a trailing comma after a single name does not make a tuple.
